@@ -11,7 +11,8 @@ RelChecks(e) ==
   CASE e.rel = "same"  -> [bitIdentical |-> e.m1 = e.m2]
     [] e.rel = "close" -> [unchanged |-> Len(e.m2) = n /\ \A i, j \in 1..n :
                              LET a == F(e.m1, e.perm[i], e.perm[j])  b == F(e.m2, i, j) IN
-                             FClose(b, FMul(FInt(e.k), a), FParse("1e-9"), FParse("1e-12")) \/ (FIsNaN(a) /\ FIsNaN(b))]
+                             \/ FClose(b, FMul(FInt(e.k), a), FParse("1e-9"), FParse("1e-12")) \/ (FIsNaN(a) /\ FIsNaN(b))
+                             \/ UnstablePair(e.rows, e.o, e.perm[i], e.perm[j])]
     [] OTHER -> [knownRelation |-> FALSE]
 \* a caller-supplied model whose k-th evaluation fails: the call returns, with that error, whenever the failing
 \* evaluation is one the computation needs (every pair is needed: k <= number of pairs / of row requests)
